@@ -413,6 +413,11 @@ def check_regkey(prop: str, res: Result, repo: Repo):
     vforms = forms(vt, vparam, "return")
     mparam = "timeframe"
     mforms = forms(cm, mparam, "self.timeframe")
+    # an explicit `self.timeframe = None` is the class default spelled out (no timeframe): not a spelling of a key
+    cmc = repo.cls("hexital.core.candle_manager", "CandleManager")
+    dflt = [st.value for st in cmc.node.body if isinstance(st, (ast.Assign, ast.AnnAssign)) and st.value is not None and ast.unparse(st.targets[0] if isinstance(st, ast.Assign) else st.target) == "timeframe"]
+    if dflt and all(isinstance(d, ast.Constant) and d.value is None for d in dflt):
+        mforms.discard("None")
     if mforms == {"validate_timeframe(<tf>)"} or (mforms and mforms == vforms):
         res.ok(rule, {"indicator side": sorted(vforms), "manager side": sorted(mforms), "why": "same spelling on both sides of the registry"}, nontrivial="regkey")
     else:
